@@ -74,8 +74,8 @@ def pruning(repo, run, m):
         run.report("C08.2", DS, prunes[0] if prunes else m.loop, "interpolants are pruned before the events of the step are searched", text="pruning order")
 
 
-def bracket(repo, run, m):
-    rid = run.rule("C08.3", "the bracket given to the root finder is [start, end] of the step just taken; one search function is built for every event; "
+def bracket(repo, run, m, rule_id="C08.3"):
+    rid = run.rule(rule_id, "the bracket given to the root finder is [start, end] of the step just taken; one search function is built for every event; "
                             "crossing flags are conjoined with the finder's success", floor=5)
     # in integrate: sol_tuple = (self.__sol, prev_time, next_time) with prev/next = t[counter-1], t[counter] after the commit
     hc = m.handle_call
@@ -110,11 +110,11 @@ def bracket(repo, run, m):
             ok = k < path_key(pst, m.fn) and k < path_key(nst, m.fn) and all(path_key(pst, m.fn) < path_key(d, m.fn) and path_key(nst, m.fn) < path_key(d, m.fn) for d in decs)
     run.judged(rid, "event search interval = (t[counter-1], t[counter]) of the step just committed", ok=ok)
     if not ok:
-        run.report("C08.3", DS, tup or hc, "the interval handed to handle_events is not (start, end) of the step just taken", text="sol_tuple definition")
+        run.report(rule_id, DS, tup or hc, "the interval handed to handle_events is not (start, end) of the step just taken", text="sol_tuple definition")
     okargs = [src(hb[q_]) if hb.get(q_) is not None else None for q_ in hp[1:3]] == ["events", "self.constants"]
     run.judged(rid, "handle_events receives all events and the constants", ok=okargs)
     if not okargs:
-        run.report("C08.3", DS, hc, "handle_events is not called with (sol_tuple, events, self.constants, ...)")
+        run.report(rule_id, DS, hc, "handle_events is not called with (sol_tuple, events, self.constants, ...)")
     fn = repo.get(DS, "handle_events")
     run.analysed_fn(DS, fn)
     P = [a.arg for a in fn.args.args]
@@ -130,7 +130,7 @@ def bracket(repo, run, m):
     okb = len(c.args) >= 2 and isinstance(c.args[1], (ast.List, ast.Tuple)) and [src(e) for e in c.args[1].elts] == [tp, tn]
     run.judged(rid, "root_finder bracket: %s" % (src(c.args[1]) if len(c.args) > 1 else None), ok=okb)
     if not okb:
-        run.report("C08.3", DS, c, "the root finder is not given the bracket [t_prev, t_next] (the two ends of the step)")
+        run.report(rule_id, DS, c, "the root finder is not given the bracket [t_prev, t_next] (the two ends of the step)")
     # ev_f built from all events
     lst = src(c.args[0])
     oka = False
@@ -148,7 +148,7 @@ def bracket(repo, run, m):
                 factory_calls.append(st.value.elt)
     run.judged(rid, "one search function per event (no filtering)", ok=oka)
     if not oka:
-        run.report("C08.3", DS, rf[0], "the list of search functions is not built unconditionally from every event: some event would never be searched", text="ev_f construction")
+        run.report(rule_id, DS, rf[0], "the list of search functions is not built unconditionally from every event: some event would never be searched", text="ev_f construction")
     # evaluation of the event uses the dense solution at the query time: the factory that wraps an event (a nested or a module-level helper) returns
     # functions t -> event(t, sol(t), ...), where sol is handle_events' own dense solution (closed over, or handed to the factory)
     oke = False
@@ -172,7 +172,7 @@ def bracket(repo, run, m):
                 oke = False
     run.judged(rid, "event functions are evaluated at (t, sol(t))", ok=oke)
     if not oke:
-        run.report("C08.3", DS, inner, "an event search function does not evaluate the event at (t, sol(t))", text="event evaluation point")
+        run.report(rule_id, DS, inner, "an event search function does not evaluate the event at (t, sol(t))", text="event evaluation point")
 
 
 def ordering(repo, run):
